@@ -760,7 +760,7 @@ def block_lp(rng, form, sense):
 def mentioned_names(lp):
     """Independent syntactic variable set of the written model, natural order."""
     D = R.Decls(lp["decls"])
-    names = set(R.ref_vars(D, lp["objective"]))
+    names = set(R.ref_vars(D, lp["objective"])) if lp.get("objective") is not None else set()
     for c in lp["constraints"]:
         for side in (c[2], c[3]):
             if side[0] == "raw":
